@@ -62,7 +62,7 @@ def replay_and_validate(run, behs, driver, driver_args, trace_module, trace_cfg,
             stats = json.loads(out.strip().splitlines()[-1])
         except Exception:
             stats = {}
-        for k in ("ops", "cuts", "faults", "replicas"):
+        for k in ("ops", "cuts", "faults", "replicas", "pushes"):
             if k in stats:
                 run.cov["real_" + k] = run.cov.get("real_" + k, 0) + stats[k]
         # One pass: with deviations listed as known the trace is validated against ACTUAL = IDEAL + those
